@@ -12,7 +12,7 @@ DEDUCTIVE = ['vsg.apply_rules.apply_rules', 'vsg.vhdlFile.utils.detect_subelemen
 def run():
     c = Check("C19", "other")
     c.engine = Engine()
-    c.deductive(sorted(q for q in c.engine.contracts if q.startswith("vsg.tokens.")) + DEDUCTIVE)
+    c.deductive(sorted(set(sorted(q for q in c.engine.contracts if q.startswith("vsg.tokens.")) + DEDUCTIVE + _pipeline.fix_bases(c.engine))))
     _pipeline.pipeline_part(c, "C19")
     # rejected files: located message, no other exception, no hang (malformed variants of accepted files)
     import os
